@@ -8,6 +8,7 @@ import (
 	"strings"
 
 	"github.com/cockroachdb/redact"
+	"github.com/cockroachdb/redact/interfaces"
 )
 
 func init() {
@@ -225,6 +226,11 @@ func c08check(w *Worker, pool *c08pool, r *Rng, idx int64) (produced string) {
 					vals = append(vals, e)
 				}
 			}
+			if r.Chance(1, 6) {
+				// not a slice: printed as it is, wrapper included
+				operand = []interface{}{redact.Unsafe(interfaces.SafeString("tok")), redact.Safe("plain" + startM), redact.Unsafe(redact.RedactableString(pool.pick(r))), 42, nil, redact.Unsafe(tStringer{"s"}), tS2{redact.Safe(1), 2}}[r.Intn(7)]
+				vals = []interface{}{operand}
+			}
 			d2 := []string{"", "", ", ", delim}[r.Intn(4)]
 			var each []string
 			for _, e := range vals {
@@ -235,7 +241,7 @@ func c08check(w *Worker, pool *c08pool, r *Rng, idx int64) (produced string) {
 			redact.JoinTo(&sb2, redact.RedactableString(d2), operand)
 			w.Eval(1)
 			if gotAny := string(sb2.RedactableString()); canon(gotAny) != canon(wantAny) {
-				viol("join-any", "JoinTo("+q(d2)+", "+reflect.TypeOf(operand).String()+" of "+itoa(len(vals))+" elements) = "+q(gotAny)+" want the elements printed one by one with the delimiter in between: "+q(wantAny), map[string]interface{}{"delim_q": q(d2), "elems": each})
+				viol("join-any", "JoinTo("+q(d2)+", "+sprintType(operand)+" of "+itoa(len(vals))+" elements) = "+q(gotAny)+" want the elements printed one by one with the delimiter in between: "+q(wantAny), map[string]interface{}{"delim_q": q(d2), "elems": each})
 			}
 		}
 		nt("join")
